@@ -23,11 +23,11 @@ func init() {
 	mon.Register(&mon.Property{
 		ID:    "C17",
 		Level: "exploration",
-		Rule: "seeded cases = (body bytes 0..3*4096+1 biased to buffer boundaries) x (scripted underlying stream: per-call chunk sizes incl. runs of <=50 zero-length reads, data+EOF or data+error in one call, " +
+		Rule: "seeded cases = (body bytes 0..3*4096+1 biased to buffer boundaries; one case in 250 has a body of 32 KiB+1 .. 70 KiB, handed out whole or in pieces of 1000..40000 bytes) x (scripted underlying stream: per-call chunk sizes incl. runs of <=50 zero-length reads, data+EOF or data+error in one call, " +
 			"scripted error before/after any byte, optional Close error; or nil Body; or http.NoBody) x (Content-Length: positive with/without header, header \"0\" or another spelling of zero (\"00\", \" 0\", \"000\") with field 0, absent (0, no header), -1) x " +
 			"(method POST, or GET/HEAD/DELETE/OPTIONS/PUT/PATCH/TRACE, lower- or mixed-case, or empty; TransferEncoding nil or [chunked] when no length is declared: the expected answer depends on neither) x " +
 			"(operation sequence of 1..12 ops over HasBody, Read(n) n in {0,1,7,4096,10000}, Close, and W = drain with io.Copy into a plain io.Writer (uses the body's WriteTo if it has one)), followed by a fixed tail: drain to the terminal condition, Close, one read after close, second Close. " +
-			"Every operation is executed on the real request and on a byte-queue model written from the statement; each result is compared as it happens. " +
+			"Every operation is executed on the real request and on a byte-queue model written from the statement; each result is compared as it happens; after every HasBody, Read and copy made while the body is open the underlying stream must not have been closed (a close before the caller's Close is not 'closing the body'). " +
 			"non-trivial = no length declared (the peeking path is taken), non-empty scripted stream, and the sequence has >=1 HasBody followed by >=1 Read(n>0); " +
 			"distinct by (body length, stream script, Content-Length class, operation sequence)",
 		Assumptions: []string{
@@ -495,6 +495,20 @@ func exec(c *Case) (fs []finding, inf info) {
 		}
 	}
 
+	// "closing the body closes the underlying stream": the stream is the caller's until the caller
+	// closes the body; a close made while the body is still open (by HasBody, a Read or a copy) is not
+	// the close the statement speaks of, and the caller's later Close could not be forwarded "once"
+	earlyReported := false
+	checkEarlyClose := func(after string) {
+		if st == nil || closed || earlyReported {
+			return
+		}
+		if got := st.closes - directCloses; got > 0 {
+			earlyReported = true
+			add("underlying-closed-before-body-close/"+clc, "after %s the underlying stream had been closed %d time(s) although Close was never called on the request body; trace [%s]", after, got, trace)
+		}
+	}
+
 	doClose := func() {
 		if req.Body == nil {
 			cls("close-skipped-nil-body")
@@ -521,10 +535,12 @@ func exec(c *Case) (fs []finding, inf info) {
 		switch {
 		case op == "H":
 			doHas()
+			checkEarlyClose("HasBody")
 		case op == "C":
 			doClose()
 		case op == "W":
 			doCopy()
+			checkEarlyClose("io.Copy from the body")
 		case strings.HasPrefix(op, "R"):
 			n, err := strconv.Atoi(op[1:])
 			if err != nil || n < 0 || n > len(scratch) {
@@ -532,6 +548,7 @@ func exec(c *Case) (fs []finding, inf info) {
 				return
 			}
 			doRead(n)
+			checkEarlyClose("Read")
 		default:
 			add("bad-case", "bad op %q", op)
 			return
@@ -551,7 +568,9 @@ func exec(c *Case) (fs []finding, inf info) {
 			bound := len(rest) + zeros + len(c.Stream.Chunks) + 64
 			done := false
 			for i := 0; i < bound && !stop; i++ {
-				if doRead(4096) {
+				t := doRead(4096)
+				checkEarlyClose("Read")
+				if t {
 					done = true
 					break
 				}
@@ -755,6 +774,9 @@ func runCase(m *mon.M, c *Case) {
 // ---- generation ----
 
 var boundaryLens = []int{0, 1, 2, 3, 7, 8, 15, 16, 17, 4095, 4096, 4097, 8191, 8192, 8193, 12287, 12288, 12289}
+
+// bigLens: beyond the 32 KiB buffer of io.Copy and the 64 KiB thresholds; a drain takes several rounds
+var bigLens = []int{32*1024 + 1, 33*1024 + 7, 64*1024 - 1, 64 * 1024, 64*1024 + 1, 70 * 1024}
 var chunkSizes = []int{1, 1, 2, 3, 5, 7, 100, 1000, 4095, 4096, 4097, 5000, 20000}
 var readSizes = []int{0, 1, 7, 4096, 10000}
 
@@ -789,10 +811,24 @@ func genCase(r *rand.Rand) *Case {
 		default:
 			n = r.Intn(3*4096 + 2)
 		}
+		big := r.Intn(250) == 0
+		if big {
+			n = bigLens[r.Intn(len(bigLens))]
+		}
 		c.Body = mon.Q(genBody(r, n))
 		// stream script
 		sc := &c.Stream
 		sc.ErrAt = -1
+		defer func() {
+			// a multi-buffer body is not handed out a few bytes at a time (tens of thousands of reads say
+			// nothing new); now and then in pieces larger than any buffer on the way
+			if big && sc.Tail > 0 && sc.Tail < 100 {
+				sc.Tail = 1000
+			}
+			if big && sc.Tail == 20000 {
+				sc.Tail = 40000
+			}
+		}()
 		switch k := r.Intn(20); {
 		case k < 3: // hand out whatever is asked
 		case k < 5:
